@@ -32,6 +32,8 @@ def run(rep):
                                  **dwtmodel.grad_call_bounds2(rep.tier))
     grad2d.forward_vjp_2d(rep, fnd, table, calls2.records, "C05")
     grad2d.inverse_vjp_2d(rep, fnd, table, calls2.records, "C05")
+    from .. import scalechecks
+    scalechecks.dwt_vjp(rep, "C05", rep.tier)          # large inputs (size thresholds)
     rep.assumptions += ["cotangents and inputs are eliminated by linearity (C07): the VJP operator is extracted on identity batches",
                         "TLC bounds in coverage.tlc_runs"]
 
